@@ -2099,7 +2099,9 @@ impl Scenario for PayloadCut {
                 // (1) views
                 let n = rng.range(1, 12) as usize;
                 let mw = *rng.pick(&[0usize, 1, 2, 9, 40, 200, 700]);
-                let input = gen_framed_words(&mut rng, n, mw, 1, 0, true);
+                // (unknown IDs in half of the cases - among them 0xFF, the one that looks like padding)
+                let pu = if rng.chance(1, 2) { 0 } else { *rng.pick(&[30u64, 150]) };
+                let input = gen_framed_words(&mut rng, n, mw, 1, pu, true);
                 let v = if rng.chance(1, 2) { VIEW_MODES[2] } else { VIEW_MODES[1] };
                 let mut parts = s(v);
                 let im = pick_input_mode(&mut rng);
@@ -2364,11 +2366,31 @@ impl Scenario for FsmWalk {
         let mut words: Vec<u8> = Vec::with_capacity(n * 10);
         let mut st = St::Ihw;
         const IDS: [u8; 12] = [0xE0, 0xE8, 0xE8, 0xF0, 0xF0, 0xE4, 0xF8, 0x20, 0x28, 0x43, 0x5E, 0x4B];
+        // state may leak through *equality* with an earlier word (a validator that skips work when a word
+        // equals the one it stored): a fifth of the candidates repeat, byte for byte, the last word seen in
+        // the same kind of state (IHW / c_IHW, TDH / c_TDH, data, choice states)
+        let class_of = |s: St| -> usize {
+            match s {
+                St::Ihw | St::CIhw => 0,
+                St::Tdh | St::CTdh => 1,
+                St::Data | St::CData => 2,
+                St::AfterNoData | St::AfterTdt => 3,
+            }
+        };
+        let mut last_in_class: [Option<[u8; 10]>; 4] = [None; 4];
         for _ in 0..n {
             let want_illegal = rng.chance(p_illegal, 1000);
             let mut w = [0u8; 10];
             let mut tries = 0;
             loop {
+                if let (true, Some(prev)) = (rng.chance(1, 5), last_in_class[class_of(st)]) {
+                    w = prev;
+                    let legal = matches!(diagram_step(st, &w), Step::Legal(..));
+                    tries += 1;
+                    if legal != want_illegal {
+                        break;
+                    }
+                }
                 rng.fill(&mut w);
                 w[9] = if rng.chance(1, 8) {
                     // unknown ID
@@ -2388,6 +2410,7 @@ impl Scenario for FsmWalk {
                 }
             }
             words.extend_from_slice(&w);
+            last_in_class[class_of(st)] = Some(w);
             st = match diagram_step(st, &w) {
                 Step::Legal(_, next) => next,
                 // after an illegal word the implementation decides; approximate for generation only
